@@ -408,7 +408,7 @@ var _ = kit.Register(kit.Prop[Case]{
 	Name: "CommitReopenCopy",
 	Rule: "histories of up to ~65 operations (account, validator [replaying the staking callers], staking records, pending relationships, staking-trie reset, passive snapshots/reverts, transaction boundaries) with random Commit and Copy points; after every Commit (+ TrieDB.Commit of the three roots, as WriteBlockWithState) Obs of the live object must equal Obs of state.New(roots) on the same database AND on a byte copy of the disk under a fresh node cache, NewVldReader with integrity check and RawDump must agree, IntermediateRoot of the untouched reopened state must equal the committed roots; at every Copy Obs(copy)==Obs(original), then one side continues and the other must keep its Obs (both directions, copies of copies); non-trivial = the history has a delegation or a staking record and at least 2 commit/copy check points; distinct = FNV-64 of the case JSON",
 	Gen:  genCase, Run: runCase,
-	Quick: 1200, Thorough: 20000, Chunk: 300, MinNonTrivialPct: 30,
+	Quick: 1800, Thorough: 20000, Chunk: 300, MinNonTrivialPct: 30,
 })
 
 // ---------------------------------------------------------------------------------
@@ -574,5 +574,5 @@ var _ = kit.Register(kit.Prop[MetaCase]{
 	Name: "RootsContentOnly",
 	Rule: "a sequence of up to ~45 content-writing operations (accounts first given a nonce; balances, code, storage, validators, delegations, withdraw records, rewards, staking records, pending relationships) is executed twice on separate databases: two random linear extensions of the 'touches a common entity' partial order (independent writes permuted), different placement of Finalise / IntermediateRoot / Commit / reopen boundaries, and in schedule B extra intermediate values that are overwritten; the three committed roots and the persistent Obs must be equal; non-trivial = content has a delegation or staking record, both schedules have >= 2 commits and the two orders differ; distinct = FNV-64 of the case JSON",
 	Gen:  genMetaCase, Run: runMetaCase,
-	Quick: 800, Thorough: 12000, Chunk: 200, MinNonTrivialPct: 40,
+	Quick: 1200, Thorough: 12000, Chunk: 200, MinNonTrivialPct: 40,
 })
